@@ -206,3 +206,13 @@ Theorem C05_a_deletion_inside_a_block_keeps_the_cfg_closed :
     remove_block s2 end1 false = Ok (r, s3) ->
     Closed (edit_byte_interval s3 bi (boff (the_blk s3 b) + offset) length [] [b]).
 Proof. exact Closed_inner_deletion'. Qed.
+
+(* the deletion of a whole code block (remove_block, then the bytes): closed, given three facts about the input block *)
+Theorem C05_a_whole_block_deletion_keeps_the_cfg_closed :
+  forall s b tp deleted s1 bi off len,
+    Closed s -> live s (NB b) -> is_code s b = true -> (b < next s)%nat ->
+    (forall n, snd (adjacent_blocks s b) = Some n -> live s (NB n) /\ n <> b) ->
+    ((exists e, In e (out_edges s b) /\ is_call e = true) -> ~ has_ret s b) ->
+    remove_block s b tp = Ok (deleted, s1) ->
+    Closed (edit_byte_interval s1 bi off len [] [b]).
+Proof. exact Closed_whole_deletion. Qed.
